@@ -69,6 +69,9 @@ def run_one(mod, run_seed, replay=None, lenient=False, keep_trace=False, case=No
                 except Exception:
                     hv = None
                     res["on_hang_error"] = traceback.format_exc()
+                if isinstance(hv, core.Inconclusive):
+                    s.probe("inconclusive:%s" % (hv,))
+                    return {"nontrivial": False, "inconclusive": str(hv)}
                 if hv is not None:
                     raise hv
             raise
